@@ -422,20 +422,28 @@ func (o *oracle) after(s *sim, sp *runSpec, pre *preState, outcome string) (stri
 			for _, e := range sp.extras {
 				clean = clean && hasKey(e.signers, k.id, k.flags)
 			}
+			// kskFetched is indexed by tag, a later record replaces an earlier one: the REVOKE form is
+			// shadowed only by a DIFFERENT fetched SEP record with its tag that comes after it. A key
+			// that is merely tracked (Valid, Missing, Pending) under the REVOKE form's tag is no excuse.
+			seen := false
 			for _, x := range allFetched {
 				sameRecord := x.id == k.id && x.flags == k.flags && x.owner == k.owner
-				sameOld := x.id == old.id && x.flags == old.flags && x.owner == 0
-				if (x.tag == k.tag || x.tag == old.tag) && !sameRecord && !sameOld {
+				if sameRecord {
+					seen = true
+					continue
+				}
+				if seen && x.sep() && x.tag == k.tag {
 					clean = false
 				}
 			}
+			// the anchor must be the record tracked at tag-128
 			for _, e := range stBefore {
-				if (e.key.tag == k.tag || e.key.tag == old.tag) && e.key.id != k.id {
+				if e.key.tag == old.tag && e.key.id != k.id {
 					clean = false
 				}
 			}
 			for _, x := range append(append([]kref(nil), trusted...), s.cfg...) {
-				if (x.tag == k.tag || x.tag == old.tag) && x.id != k.id {
+				if x.tag == old.tag && x.id != k.id {
 					clean = false
 				}
 			}
@@ -779,9 +787,15 @@ func (o *oracle) probe(s *sim, sp *runSpec, answered, ad bool) string {
 }
 
 // boot judges the trust set of a process that has started but not refreshed yet.
-func (o *oracle) boot(s *sim) string {
+func (o *oracle) boot(s *sim, tombUnreadable bool) string {
 	o.closed = map[int]bool{}
 	live := s.liveRefs()
+	if tombUnreadable && len(live) > 0 {
+		return fail("autota/process-start/unreadable-tombstones-not-fail-closed", "live=%s", joinRefs(live))
+	}
+	if t := s.obsTomb(); (t == "corrupt" || t == "zero") && len(live) > 0 {
+		return fail("autota/process-start/undecodable-tombstones-not-fail-closed", "live=%s", joinRefs(live))
+	}
 	for m := range o.durable {
 		if hasMat(live, m) && recordOf(s.obsState(), s.obsTomb(), m) {
 			return fail("autota/process-start/revoked-key-trusted-before-first-refresh", "material %d live=%s", m, joinRefs(live))
